@@ -401,8 +401,8 @@ class TaggedUnionConverter(UnionConverter):
 
         if self.external is False:
             try:
-                # don't give 'tag' to variants
-                val = val.copy()
+                # don't give 'tag' to variants (any mapping can be data, not only those with a `copy()`)
+                val = dict(val)
                 tag = val.pop(self.tag)
             except KeyError:
                 raise ParseInterrupt()
@@ -431,8 +431,8 @@ class TaggedUnionConverter(UnionConverter):
 
         if self.external is False:
             try:
-                # don't give 'tag' to variants
-                val = val.copy()
+                # don't give 'tag' to variants (any mapping can be data, not only those with a `copy()`)
+                val = dict(val)
                 tag = val.pop(self.tag)
             except KeyError:
                 return WrongTypeError(f"mapping with key '{self.tag}' => {self.tag_expected()}", val)
